@@ -16,11 +16,17 @@ from .env import xgi
 
 CLASSES = ("Hypergraph", "DiHypergraph", "SimplicialComplex")
 
-NODE_KINDS = ("int", "gap", "str", "digits")
-EID_KINDS = ("auto", "int", "gap", "perm", "str", "str+auto", "digits")
+NODE_KINDS = ("int", "gap", "str", "digits", "latin")
+EID_KINDS = ("auto", "int", "gap", "perm", "str", "str+auto", "digits", "latin")
 
 _STR_NODES = ["a", "b", "c", "d", "e", "n1", "n10", "n2", "x", "yy", "Zq", "v_7"]
 _STR_EIDS = ["e0", "e1", "e2", "f", "g", "h", "e10", "zz", "q", "r", "E_3", "k9"]
+
+# non-ASCII labels, every character representable in latin-1 and cp1252 (and utf-8)
+_LATIN_NODES = ["é", "ü", "ñ", "Zürich", "Åse", "çx", "Ölm", "naïve", "ß1", "a"]
+_LATIN_EIDS = ["è0", "ö1", "Ñ2", "kø", "ûe", "Ärger", "í7", "â", "ý9", "Þ", "ðx", "e"]
+# labels containing the default comment token; only used where a reader is given another `comments`
+_HASH_NODES = ["#a", "b#", "c#1", "x#y", "#", "##z", "q"]
 
 # identifier-like, and none of them is a parameter name of add_node / add_edge / add_simplex
 ATTR_NAMES = ("color", "w", "tag", "weight", "label", "size_")
@@ -47,6 +53,10 @@ def node_pool(rng, kind, k):
         return rng.sample(range(-6, 60), k)
     if kind == "str":
         return rng.sample(_STR_NODES, k)
+    if kind == "latin":
+        return rng.sample(_LATIN_NODES, k)
+    if kind == "hash":
+        return rng.sample(_HASH_NODES, k)
     return [str(i) for i in rng.sample(range(-4, 40), k)]  # digits
 
 
@@ -68,6 +78,8 @@ def eid_plan(rng, kind, m):
         return rng.sample(_STR_EIDS, m)
     if kind == "str+auto":
         return [i if rng.random() < 0.6 else None for i in rng.sample(_STR_EIDS, m)]
+    if kind == "latin":
+        return rng.sample(_LATIN_EIDS, m)
     return [str(i) for i in rng.sample(range(-4, 40), m)]  # digits: all explicit
 
 
@@ -157,6 +169,77 @@ def gen_net(rng, cls, json_only=False, empties=True, min_edges=0, max_edges=7, n
     if any(len(net.nodes.memberships(n)) == 0 for n in net.nodes):
         feats.add("isolated-node")
     return net, {"nkind": nkind, "ekind": ekind, "feats": feats, "hist": hist, "cls": cls}
+
+
+def mutate(rng, net):
+    """Change `net` in place through the public API, keeping the node and edge ID sets where the class allows it
+    (a cache keyed on the object or on its IDs then serves stale data).  -> list of the calls made ([] = nothing changed)."""
+    done = []
+    nodes, edges = list(net.nodes), list(net.edges)
+    di = isinstance(net, xgi.DiHypergraph)
+    sc = isinstance(net, xgi.SimplicialComplex)
+    if edges and nodes and not sc:
+        for _ in range(rng.randint(1, 2)):
+            e = rng.choice(edges)
+            if di:
+                n, d = rng.choice(nodes), rng.choice(("in", "out"))
+                t, h = net.edges.dimembers(e)
+                if n not in (t if d == "in" else h):
+                    net.add_node_to_edge(e, n, d)
+                    done.append(f"add_node_to_edge({e!r}, {n!r}, {d!r})")
+            else:
+                mem = net.edges.members(e)
+                out = [n for n in nodes if n not in mem]
+                if out and (len(mem) < 2 or rng.random() < 0.6):
+                    n = rng.choice(out)
+                    net.add_node_to_edge(e, n)
+                    done.append(f"add_node_to_edge({e!r}, {n!r})")
+                elif len(mem) >= 2:
+                    n = rng.choice(sorted(mem, key=repr))
+                    net.remove_node_from_edge(e, n)
+                    done.append(f"remove_node_from_edge({e!r}, {n!r})")
+    if sc and nodes:
+        if edges and rng.random() < 0.5:
+            e = rng.choice(edges)
+            net.remove_simplex_id(e)
+            done.append(f"remove_simplex_id({e!r})")
+        else:
+            fresh = max(nodes) + 1 if all(type(n) is int for n in nodes) else str(nodes[0]) + "_m"  # same label type as the others
+            mem = rng.sample(nodes, min(len(nodes), rng.randint(1, 3))) + [fresh]
+            net.add_simplex(mem)
+            done.append(f"add_simplex({mem!r})")
+    if not done or rng.random() < 0.5:
+        if nodes:
+            n = rng.choice(nodes)
+            net.set_node_attributes({n: {"color": "mutated"}})
+            done.append(f"set_node_attributes({{{n!r}: {{'color': 'mutated'}}}})")
+        edges = list(net.edges)
+        if edges:
+            e = rng.choice(edges)
+            net.set_edge_attributes({e: {"w": -99}})
+            done.append(f"set_edge_attributes({{{e!r}: {{'w': -99}}}})")
+        net["name"] = "mutated"
+        done.append("net['name'] = 'mutated'")
+    return done
+
+
+def scribble(back):
+    """Deface a *returned* network (structure, attributes): a later call must not hand out this object, or data aliased with it, again."""
+    nodes = list(back.nodes)
+    if nodes:
+        back.remove_node(nodes[0])
+    back.add_node("scribble_node", color="scribble")
+    if isinstance(back, xgi.DiHypergraph):
+        back.add_edge((["scribble_node"], ["scribble_2"]), idx="scribble_edge")
+    elif isinstance(back, xgi.SimplicialComplex):
+        back.add_simplex(["scribble_node", "scribble_2"], idx="scribble_edge")
+    else:
+        back.add_edge(["scribble_node", "scribble_2"], idx="scribble_edge")
+    back["name"] = "scribble"
+    for n in list(back.nodes)[:2]:
+        back.set_node_attributes({n: {"color": "scribble"}})
+    for e in list(back.edges)[:2]:
+        back.set_edge_attributes({e: {"w": "scribble"}})
 
 
 def valid(net):
